@@ -3,17 +3,18 @@ import json, os, re
 import common
 
 LEAN_MODULES = ['OpusProps.C20']
-GEN = ['DtxConsts']
+GEN = ['DtxConsts', 'VadConsts']
 SOURCES = ['src/opus_encoder.c', 'src/opus_private.h', 'src/analysis.c', 'src/analysis.h', 'silk/enc_API.c',
            'silk/float/encode_frame_FLP.c', 'silk/fixed/encode_frame_FIX.c', 'silk/define.h', 'silk/tuning_parameters.h',
-           'silk/structs.h', 'silk/control.h', 'silk/control_codec.c', 'silk/init_encoder.c', 'silk/VAD.c',
+           'silk/structs.h', 'silk/control.h', 'silk/control_codec.c', 'silk/init_encoder.c', 'silk/VAD.c', 'silk/ana_filt_bank_1.c',
+           'silk/sigm_Q15.c', 'silk/lin2log.c', 'silk/Inlines.h', 'silk/SigProc_FIX.h', 'silk/macros.h',
            'src/repacketizer.c', 'src/opus_decoder.c', 'celt/celt_decoder.c', 'include/opus_defines.h']
 REQUIRED_THEOREMS = ['OpusProps.C20.' + t for t in (
     'dtx_first_decision', 'dtx_machine_run_bound', 'dtx_machine_refresh', 'dtx_machine_resume',
     'silk_onset', 'silk_run_bound', 'silk_refresh_resume',
     'dtx_onset', 'dtx_run_bound', 'dtx_detector_switch_no_dtx', 'dtx_resume', 'dtx_resume_counter', 'dtx_resume_silk',
     'in_dtx_on_dtx_packets', 'counters_in_range', 'regular_iff_budget', 'regular_iff_three_bytes',
-    'dtx_off_no_tiny', 'dtx_stream_decodes')]
+    'dtx_off_no_tiny', 'dtx_stream_decodes', 'vad_init_invariant', 'vad_total_in_range', 'vad_energy_fits_32bit')]
 UNPROVED = []
 RULE = ('seeded generation of whole encoder runs (Fs x channels x application x complexity 0..10 x VBR/CVBR/CBR x bitrate '
         'classes incl. auto/max/near the low-budget boundary x output buffer x all nine frame durations x DTX on/off x FEC x '
@@ -62,8 +63,8 @@ TRUSTED = ['harness/c20_dtx.c records the locals activity / is_silence / analysi
            'run_analysis by #define before #including src/opus_encoder.c; nothing in /repo is edited']
 
 
-def _harness(ctx, variant):
-    """Compile the harness; the shared library cache may be pruned by concurrent runs, so retry once with a fresh build."""
+def _harness(ctx, variant, name='c20_dtx'):
+    """Compile a harness; the shared library cache may be pruned by concurrent runs, so retry once with a fresh build."""
     cal = json.load(open(os.path.join(common.VERIF, 'tools', 'c20_calibration.json')))
     extra = ['-DC20_ACT_MIN_DB=(%r)' % cal['act_db_min'], '-DC20_ACT_MAX_DB=(%r)' % cal['act_db_max'],
              '-DC20_GAP_MAX_DB=(%r)' % cal['gap_db_max']]
@@ -73,21 +74,21 @@ def _harness(ctx, variant):
         try:
             if not os.path.exists(ctx.lib(variant).a):
                 ctx._libs.pop(variant, None)
-            return ctx.harness('c20_dtx', ['c20_dtx.c'], variant=variant, extra=extra)
+            return ctx.harness(name, [name + '.c'], variant=variant, extra=extra)
         except RuntimeError:
             if attempt:
                 raise
             ctx._libs.pop(variant, None)
 
 
-def _tie(ctx, name, args):
-    h = _harness(ctx, 'san')
+def _tie(ctx, name, args, harness='c20_dtx'):
+    h = _harness(ctx, 'san', harness)
     if not os.path.exists(common.driver_path()):     # another owner is relinking the shared driver: rebuild and go on
         common.lake_build(['opusmodel'])
     tr = common.run_tie(name, [h] + args, timeout=3000)
     # harness statistics -> distribution
     for n in list(tr.notes):
-        if n.startswith('tie-dist '):
+        if n.startswith('tie-dist ') or n.startswith('vad-dist calls'):
             for kv in n.split(' ')[1:]:
                 k, _, v = kv.partition('=')
                 if v.isdigit():
@@ -105,6 +106,8 @@ def ties(ctx):
     out.append(_tie(ctx, 'dtx-silence-grid', ['scen', 'silence-grid', str(first), '648', str(stride), '0', 'tie']))
     out.append(_tie(ctx, 'dtx-regime-switch', ['scen', 'regime-switch', '0', '16', '1', '0', 'tie']))
     out.append(_tie(ctx, 'dtx-silk-bust', ['scen', 'silk-bust', '0', '1', '1', '0', 'tie']))
+    # the SILK VAD: real silk_VAD_GetSA_Q8_c (silk/VAD.c #included) vs OpusModel.SilkVad, every state field and output
+    out.append(_tie(ctx, 'silk-vad', ['tie', s, '250' if ctx.quick else '6000'], harness='c20_vad'))
     out.append(_tie(ctx, 'dtx-nan-pattern', ['scen', 'nan-pattern', '0', '11', '2', '0', 'tie']))
     return out
 
@@ -133,6 +136,15 @@ def classify(ctx, tie, mm):
     why = None
     if impl in ('SANITIZER', 'ABORT', 'SIGSEGV') or impl.startswith('SANITIZER') or impl.startswith('ABORT'):
         why = 'the encoder trapped (%s) inside this call' % impl.split(' ')[0]
+    elif len(toks) > 4 and toks[1] == 'vad':
+        fi = _fields(impl)
+        try:
+            sa, tilt = int(fi.get('sa', '-1')), int(fi.get('tilt', '99999'))
+            q = [int(x) for x in fi.get('q', '').split(',')]
+            if not (0 <= sa <= 255) or not (-32768 <= tilt <= 32767) or any(not (0 <= x <= 32767) for x in q):
+                why = 'silk_VAD_GetSA_Q8 output outside its documented range: ' + impl[:80]
+        except ValueError:
+            why = 'silk_VAD_GetSA_Q8 did not return: ' + impl[:80]
     elif len(toks) > 21 and toks[1] == 'call':
         use_dtx, fs, cx = toks[2] == '1', int(toks[3]), int(toks[5])
         pre = toks[10:19]
@@ -213,6 +225,9 @@ def search(ctx):
     # 3. generated runs (plain build for volume, sanitizer build for memory safety of the DTX paths incl. decoder)
     _run_search(h, ['search', str(ctx.seed), '300' if q else '3500', '0' if q else '1'], env, wit, stats)
     _run_search(hs, ['search', str(ctx.seed + 1000), '40' if q else '600', '0'], env, wit, stats)
+    # 4. the SILK VAD on the implementation: output ranges, state bounds, digital silence becomes and stays inactive
+    hv = _harness(ctx, 'plain', 'c20_vad')
+    _run_search(hv, ['search', str(ctx.seed), '8000' if q else '150000'], env, wit, stats)
     # one witness per (clause, input)
     seen, uniq = set(), []
     for w in wit:
@@ -239,6 +254,16 @@ def replay(ctx, obj):
     inp = obj.get('input', '')
     h = _harness(ctx, 'plain')
     env = {'ASAN_OPTIONS': 'detect_leaks=0:abort_on_error=0'}
+    if inp.startswith('vad-seq '):
+        hv = _harness(ctx, 'plain', 'c20_vad')
+        rc, out = common.sh([hv, 'one', inp.split(' ')[1]], env=env)
+        ws = [l for l in out.split('\n') if l.startswith('W ')]
+        print('\n'.join(ws[:10] + [l for l in out.split('\n') if l.startswith('# stats')]))
+        if ws:
+            print('VIOLATION property=C20 replay reproduced (%d witness line(s))' % len(ws))
+            return 1
+        print('replay: the VAD predicates hold on this sequence now')
+        return 0
     if inp.startswith('scenario ') or inp.startswith('run '):
         t = inp.replace('scenario regime-switch (found in) ', '').split(' ')
         if t[0] == 'scenario':
